@@ -746,6 +746,7 @@ func main() {
 		ns = *n / 10
 	}
 	checks += stress(sink, r, ns)
+	checks += illFormedChecks(sink)
 	sink.Close()
 	fmt.Printf("{\"cases\": %d, \"direct_checks\": %d, \"direct_failures\": %d, \"histogram\": {", sink.N, checks, sink.DirectFailures)
 	keys := []string{}
